@@ -1,11 +1,21 @@
 //! C32 — WaitSet wakes whenever an attached condition becomes true.
 //!
-//! Line formats (one case per line):
-//!   `D <nc> <nch> | <op> | <op> ...`   the real DcpsStatusCondition objects and the real
-//!                                      notification channels driven directly
-//!   `W <nc> <nw> | <op> | <op> ...`    the real WaitSetAsync::wait futures (see below)
-//! Output: `OK <step> ; <step> ; ...` where a step is `<op result> <trigger of every
-//! condition> <wake count of every channel / waiter>` observed after the op.
+//! Line formats (one case per line, ops separated by `|`):
+//!   `D <nc> <nch> | <op> ...`  nc real DcpsStatusCondition objects and nch real notification
+//!        channels driven directly.  ops: `a c k` add_communication_state, `r c k`
+//!        remove_communication_state, `s c k1,k2|-` set_enabled_statuses, `t c` get_trigger_value,
+//!        `e c` get_enabled_statuses, `g c ch` register_notification(sender[ch].clone()),
+//!        `p ch` poll receiver[ch] once (0 Ready, 1 Pending, 2 closed), `x ch` drop sender[ch].
+//!        step output: `<op result> <trigger value of every condition> <wake count of every waker>`
+//!   `W <nc> <nw> | <op> ...`  the real async API, see `mod wl`.  ops: `a c 1`, `r c 1`, `s c ks`,
+//!        `t c`, `e c` as above (through the API), `w i c1,c2|-` waiter i builds a WaitSetAsync with
+//!        these conditions and calls wait() (the future is created, not polled), `n i` poll the
+//!        future of waiter i once and let the worker handle the mail it sent, `c i` drop the future.
+//!        step output: `<op result> <mail sent 0/1> <trigger value of every condition> <bit mask of
+//!        the waiters whose waker was called by somebody else during the op>`; the result of `n i` is
+//!        -1 (still pending), the returned conditions as hex digits index+1, -2 PreconditionNotMet,
+//!        -3 AlreadyDeleted, -4 other error.
+//! Output line: `OK <step> ; <step> ; ...`
 use dust_dds::dcps::channels::notification::{notification, NotificationReceiver, NotificationSender};
 use dust_dds::dcps::status_condition::DcpsStatusCondition;
 use dust_dds::dcps::status_mask::StatusMask;
@@ -433,13 +443,39 @@ mod wl {
         };
         let mut writers: Vec<DataWriterAsync<Sample>> = Vec::new();
         let mut conds: Vec<StatusConditionAsync> = Vec::new();
-        for _ in 0..nc {
+        // conditions 0 .. nc-4 belong to DataWriters; the last three belong to a Topic, a
+        // Subscriber and a DataReader (on a topic of their own, so nothing ever matches):
+        // their statuses never change, they exercise the other entity kinds of
+        // status_condition_methods.rs
+        let nwr = nc.saturating_sub(3);
+        for _ in 0..nwr {
             let dw = w
                 .drive(publisher.create_datawriter::<Sample>(&w.topic, QosKind::Specific(qos.clone()), NO_LISTENER, NO_STATUS))
                 .expect("create_datawriter");
             conds.push(dw.get_statuscondition());
             writers.push(dw);
         }
+        let rtopic = w
+            .drive(w.participant.create_topic::<Sample>(
+                &format!("C32R{}", w.cases.get()),
+                "Sample",
+                QosKind::Default,
+                NO_LISTENER,
+                NO_STATUS,
+            ))
+            .expect("create_topic");
+        let subscriber = w
+            .drive(w.participant.create_subscriber(QosKind::Default, NO_LISTENER, NO_STATUS))
+            .expect("create_subscriber");
+        let reader = w
+            .drive(subscriber.create_datareader::<Sample>(&rtopic, QosKind::Default, NO_LISTENER, NO_STATUS))
+            .expect("create_datareader");
+        if nc >= 3 {
+            conds.push(rtopic.get_statuscondition());
+            conds.push(subscriber.get_statuscondition());
+            conds.push(reader.get_statuscondition());
+        }
+        let nwr = writers.len();
         let mut waiters: Vec<Option<Waiting>> = (0..nw).map(|_| None).collect();
         let mut steps: Vec<String> = Vec::new();
         for op in ops {
@@ -457,7 +493,7 @@ mod wl {
             let r: i64 = match t[0] {
                 "a" => {
                     // only OfferedDeadlineMissed can be produced on a DataWriter
-                    if a(1) < nc && a(2) == 1 {
+                    if a(1) < nwr && a(2) == 1 {
                         w.drive(writers[a(1)].register_instance_w_timestamp(
                             Sample { id: 1, value: 0 },
                             Time::new(NOW - DEADLINE - 1, 0),
@@ -467,7 +503,7 @@ mod wl {
                     0
                 }
                 "r" => {
-                    if a(1) < nc && a(2) == 1 {
+                    if a(1) < nwr && a(2) == 1 {
                         w.drive(writers[a(1)].get_offered_deadline_missed_status()).expect("get status");
                     }
                     0
@@ -482,6 +518,14 @@ mod wl {
                 "t" => {
                     if a(1) < nc {
                         w.drive(conds[a(1)].get_trigger_value()).expect("get_trigger_value") as i64
+                    } else {
+                        0
+                    }
+                }
+                "e" => {
+                    if a(1) < nc {
+                        let l = w.drive(conds[a(1)].get_enabled_statuses()).expect("get_enabled_statuses");
+                        l.into_iter().map(|k| 1i64 << super::kind_index(&k)).sum()
                     } else {
                         0
                     }
@@ -571,6 +615,9 @@ mod wl {
             cleanup_ok &= w.drive(publisher.delete_datawriter(dw)).is_ok();
         }
         cleanup_ok &= w.drive(w.participant.delete_publisher(&publisher)).is_ok();
+        cleanup_ok &= w.drive(subscriber.delete_datareader(&reader)).is_ok();
+        cleanup_ok &= w.drive(w.participant.delete_subscriber(&subscriber)).is_ok();
+        cleanup_ok &= w.drive(w.participant.delete_topic(&rtopic)).is_ok();
         if !cleanup_ok {
             return "CLEANUPERR".to_string();
         }
